@@ -247,6 +247,8 @@ def factory_conformance(ctx, h, rnd, quick, judge):
         name = "FactoryFunctorPool_%s_w%d_q%d_r%d_k%d" % (calls, nw, wq, rq, quota)
         model.mc(FMC1, consts, ctx, name, invariants=["CallOK", "NoBad", "NoDeadlock", "NoLeftovers", "QuotaKept", "NoneLeftRunning", "WidBound"],
                  view=None, workers=16, timeout=2400)
+        # liveness: under weak fairness of every thread and process every call ends and the context is left
+        model.mc(FMC1, consts, ctx, name + "_live", properties=["AllCallsEnd"], view=None, workers=16, timeout=2400, spec="FairSpec", count=False)
         if h is None:
             continue
         scen = scen_for(calls, nw, wq, rq, judge)
